@@ -219,7 +219,7 @@ def _discharge_call(F, b, tb, i, t):
         if k is not None and "int" in k and abs(int(k["int"])) < 10 ** 6:
             return "constant argument"
         term = tb.operand(t["args"][0])
-        bound = _range_bound(b, tb, t["args"][0])
+        bound = _range_bound(b, tb, t["args"][0]) or _closure_param_range_bound(F, b, tb, t["args"][0])
         if bound is not None and max(abs(bound[0]), abs(bound[1])) < 10 ** 6:
             return f"argument ranges over the constant interval {bound}"
         return None
@@ -230,6 +230,49 @@ def _discharge_call(F, b, tb, i, t):
         for x in subterms(term):
             if isinstance(x, tuple) and x and x[0] == "call" and parse_callee(x[1])[2] in ("position", "rposition"):
                 return "index is the result of position() on the same Vec (Some arm)"
+    return None
+
+
+_ELEMENT_ADAPTERS = ("map", "find_map", "filter_map", "for_each", "flat_map", "try_for_each", "any", "all", "find", "filter",
+                     "position", "take_while", "skip_while", "map_while", "inspect")
+
+
+def _const_range_in(term):
+    for y in subterms(term):
+        if isinstance(y, tuple) and y and y[0] == "call" and "RangeInclusive" in y[1] and y[1].endswith("::new") and len(y[2]) == 2:
+            a, c = y[2][0], y[2][1]
+            if a[0] == "int" and c[0] == "int":
+                return (a[1], c[1])
+        if isinstance(y, tuple) and y and y[0] == "agg" and y[1].endswith("ops::range::Range"):
+            fs = dict(y[3])
+            if fs.get("start", ("",))[0] == "int" and fs.get("end", ("",))[0] == "int":
+                return (fs["start"][1], fs["end"][1] - 1)
+    return None
+
+
+def _closure_param_range_bound(F, b, tb, op):
+    """the operand is the element parameter of a closure handed to an iterator adapter over a constant integer range
+    (`(1..=7).find_map(|k| …)`): return the range"""
+    if b.kind != "closure" or b.parent not in F.bodies:
+        return None
+    term = tb.operand(op)
+    if not (isinstance(term, tuple) and term and term[0] == "param" and term[1] == 1):
+        return None
+    pb = F.bodies[b.parent]
+    ptb = Terms(F, pb, inline_depth=0)
+    for i, t in pb.calls():
+        if parse_callee(t["callee"])[2] not in _ELEMENT_ADAPTERS or "iter" not in t["callee"]:
+            continue
+        args = [ptb.operand(a) for a in t["args"]]
+        if any(isinstance(a, tuple) and a and a[0] == "closure" and a[1] == b.id for a in args[1:]):
+            recv = args[0]
+            # only adapters that pass the range's own elements on (rev) may sit in between
+            x = recv
+            while isinstance(x, tuple) and x and x[0] == "call" and parse_callee(x[1])[2] in ("rev", "into_iter", "by_ref"):
+                x = x[2][0]
+            r = _const_range_in(x) if not (isinstance(x, tuple) and x and x[0] == "call" and not ("Range" in x[1])) else None
+            if r is not None:
+                return r
     return None
 
 
@@ -488,7 +531,7 @@ def _discharge_assert(F, b, tb, i, t, msg, ops):
                 return "operand is a chrono year (|y| ≤ 262 143): taken from Datelike::year or already accepted by from_ymd_opt on a dominating edge"
             return None
         if tys[0] == "u16" and c[0] == "int" and c[1] == 1:
-            if _taxperiod_field(b, a):
+            if _taxperiod_field(b, a, tb):
                 return "TaxPeriod invariant 1900 ≤ start_year ≤ 2100 (constructor checked, C07-R2)"
             return None
     return None
@@ -630,8 +673,14 @@ def _passes_success_edge(b, call_bb, use_bb):
     return False
 
 
-def _taxperiod_field(b, term):
+def _taxperiod_field(b, term, tb=None):
     t = term
+    # a pure accessor of the validated field (`self.start_year()`), seen through its summary
+    if tb is not None and isinstance(t, tuple) and t and t[0] == "call" and t[1] in tb.facts.bodies and len(t[2]) == 1:
+        from mir import summary, subst
+        s = summary(tb.facts, t[1], 1)
+        if s is not None:
+            t = subst(s, list(t[2]))
     if isinstance(t, tuple) and t and t[0] == "field" and t[2] == "0":
         base = t[1]
         if isinstance(base, tuple) and base and base[0] == "param":
